@@ -236,4 +236,15 @@ def corpus_descs():
     for bt, en in ((cc.BASCII, 1), (cc.BUTF8, 4), (cc.BUNI, 0)):
         out.append(([cc.param("p1", dict(k="value", dop=cc.simple(cc.std(bt, 16, en)), dflt=None))], False,
                     [{"p1": "ab"}, {"p1": "a"}]))
+    # terminated two-byte strings: a misaligned 00 00 / FF FF inside the value in front of an aligned one (the encoder must
+    # reject the aligned one; the misaligned one is harmless), and the same for one-byte terminators
+    for term in (0, 1):
+        t = "\x00" if term == 0 else "\uffff"
+        dop = cc.simple(cc.minmax(cc.BUNI, 0, 16, term))
+        vals = ["\u0100a" + t + "b", "\u0100" + t, "a\u0100b", "\u0100\u0001", "ab" + t, t, "\u0100a"] if term == 0 else \
+               ["\u01ff\uff01" + t + "b", "\u01ff" + t, "a\u01ff\uff01b", "ab" + t, t]
+        out.append(([cc.param("sid", dict(k="coded", dct=cc.std(cc.BUINT, 8), v=0x22)),
+                     cc.param("p1", dict(k="value", dop=dop, dflt=None)),
+                     cc.param("p2", dict(k="value", dop=u8(), dflt=None))], False,
+                    [{"p1": v, "p2": 7} for v in vals]))
     return out
